@@ -301,6 +301,9 @@ theorem nconcat_self (m : Mode) (cfg : Rewrite.NCfg) (P : List Char → Rewrite.
     by_cases h1 : (f.pos != cfg.numPos) = true
     · simp only [h1, if_true]; exact .ok (map_er_er true m p)
     · simp only [h1]
+      by_cases h0 : e < b
+      · simp only [h0, if_true]; exact .panic
+      simp only [h0, if_false]
       by_cases h2 : cfg.enableNormalize = true
       · simp only [h2, if_true]
         by_cases h3 : (decide (e - b > 1) || (P acc).norm != Rewrite.normForm f) = true
